@@ -1093,8 +1093,10 @@ def special_inputs(ctx, D, nprng):
         want = max(spec_trim(s, mode, cutoff, None, 0)[0] for s in specs)
         if np.asarray(sv).shape[-1] != want:
             ctx.violation("array_split:svd:batched:count", f"batched bond {np.asarray(sv).shape[-1]}, expected max over the batch = {want}", desc)
+        rn = 2 if mode in (3, 4) else 1
+        want = max(spec_trim(s, mode, cutoff, None, rn)[0] for s in specs)  # renorm > 0 selects the dynamic branch
         try:
-            D.array_split(xb, method="svd", absorb=None, cutoff=float(cutoff), cutoff_mode=MODES[mode], renorm=2 if mode in (3, 4) else 1)
+            D.array_split(xb, method="svd", absorb=None, cutoff=float(cutoff), cutoff_mode=MODES[mode], renorm=rn)
         except Exception as e:
             if want < d and mode > 2:
                 ctx.violation("trim:generic:batched_renorm_raises", f"batched split with renorm raised {type(e).__name__}: {str(e)[:120]}", desc)
